@@ -26,6 +26,7 @@ import (
 	"github.com/containers/nri-plugins/pkg/kubernetes"
 	"github.com/containers/nri-plugins/pkg/resmgr"
 	"github.com/containers/nri-plugins/pkg/resmgr/cache"
+	"github.com/containers/nri-plugins/pkg/resmgr/events"
 	cpucontrol "github.com/containers/nri-plugins/pkg/resmgr/control/cpu"
 	libmem "github.com/containers/nri-plugins/pkg/resmgr/lib/memory"
 	policyapi "github.com/containers/nri-plugins/pkg/resmgr/policy"
@@ -229,6 +230,7 @@ func (w *World) Boot() error {
 		w.H.Close()
 		w.H = nil
 	}
+	ta.VerifResetGlobals() // a (re)started plugin is a new process
 	cfgFile := filepath.Join(w.Dir, "config.yaml")
 	if err := os.WriteFile(cfgFile, []byte("{}\n"), 0o600); err != nil {
 		return err
@@ -661,6 +663,10 @@ func (w *World) exec(o Op) (r reply) {
 		r.upd, r.err = h.StopContainer(ctx, pod(), ctrOf())
 	case "Remove":
 		r.err = h.RemoveContainer(ctx, pod(), ctrOf())
+	case "ColdDone":
+		// the cold start timer of the container fires: the event reaches the policy under the lock
+		// (ColdStartArmed stopped the real timer); what the policy changes is delivered with the next request
+		_, r.err = h.PolicyEvent(&events.Policy{Type: ta.ColdStartDone, Source: ta.PolicyName, Data: ctrOf().Id})
 	case "Sync":
 		for id, ps := range o.NewPods {
 			if _, ok := w.pods[id]; !ok {
@@ -789,6 +795,15 @@ func (w *World) applyTold(id string, r *api.LinuxResources) {
 }
 
 // Step executes one request under a watchdog and returns the trace line.
+// ColdStartArmed tells whether the topology-aware policy armed a cold start timer for the container (and stops it).
+func (w *World) ColdStartArmed(c string) bool {
+	rec, ok := w.ctrs[c]
+	if !ok || w.Spec.Policy != "ta" || w.H == nil {
+		return false
+	}
+	return ta.VerifColdStartArmed(w.H.Backend(), rec.nri.Id)
+}
+
 func (w *World) Step(o Op, hidx, k int) (tr.M, error) {
 	line := tr.M{"ev": o.Op, "h": hidx, "k": k}
 	if o.Pod != "" {
